@@ -145,6 +145,27 @@ def cases(ctx):
         pad = rng.choice([0, 1])
         kinds = 'gm' if fb >= 0 and all(x >= 0 for x in dd) else 'g'
         yield Case(f'convertbits {ints(dd)} {fb} {tb} {pad}', kinds, nontrivial=True, tag='leaf-convertbits')
+    # the rest of bech32.py (bech32_encode / bech32_decode / decode / encode): implementation vs the code generated from the current
+    # source; valid addresses of every kind and network, every rejected mutation of the stream above incl. the Unicode ones
+    pool = []
+    for _ in range(ctx.n(60, 2500)):
+        ty = rng.choice(list(KIND)); ver, ln = KIND[ty]; net = rng.choice(NETS)
+        prog = G.rbytes(rng, rng.choice([ln, ln, ln, 2, 19, 21, 33, 40, 41, 1]))
+        ver2 = rng.choice([ver, ver, 0, 1, 2, 16, 17])
+        h = hrp(net) if rng.random() < 0.8 else rng.choice(['', 'x', 'BC', 'tb', 'a' * 84])
+        yield Case(f'seg_encode {chs(h)} {ver2} {ints(list(prog))}', 'g', nontrivial=True, tag='top-encode')
+        d5 = [rng.randrange(32) for _ in range(rng.choice([0, 1, 6, 33, 53]))]
+        yield Case(f'b32_encode {chs(h)} {ints(d5)} {rng.choice([1, 2])}', 'g', nontrivial=True, tag='top-b32encode')
+        try:
+            s_ = spec_encode(hrp(net), ver, G.rbytes(rng, ln))
+        except Exception:
+            continue
+        v = [s_, s_.upper(), s_[:-1], s_ + 'q', s_[:5] + s_[5].upper() + s_[6:], s_.replace('1', '1' * 2, 1), '1' + s_, s_[3:],
+             s_[:8] + 'b' + s_[9:], s_[:10] + '\u212a' + s_[11:], s_[:10] + '\u017f' + s_[11:], s_[:10] + '\u0130' + s_[11:], ' ' + s_, s_ + '\x7f',
+             hrp(net) + '1', hrp(net) + '1' + s_[-6:], 'a' * 85 + s_[len(hrp(net)):]]
+        for a_ in v:
+            yield Case(f'b32_decode {chs(a_)}', 'g', nontrivial=True, tag='top-b32decode')
+            yield Case(f'seg_decode {chs(rng.choice([hrp(net), hrp(net), hrp(net).upper(), "bc", ""]))} {chs(a_)}', 'g', nontrivial=True, tag='top-decode')
     # exhaustive (compiled, not proved): over the whole data part of the longest address (59 symbols) no pattern of 1..3
     # substituted symbols verifies under either checksum variant and none of 4 under the same variant
     yield Case('bch_exhaustive 59', 's', nontrivial=True, tag='bch-exhaustive',
@@ -184,10 +205,22 @@ def impl(op, a, ctx):
     from bitcoinutils.keys import P2wpkhAddress, P2wshAddress, P2trAddress
     from bitcoinutils.utils import is_address_bech32
     F = Fields(a)
-    if op in ('polymod', 'hrp_expand', 'create_checksum', 'verify_checksum', 'convertbits'):
+    if op in ('polymod', 'hrp_expand', 'create_checksum', 'verify_checksum', 'convertbits', 'b32_encode', 'b32_decode', 'seg_decode', 'seg_encode'):
         from bitcoinutils import bech32 as B
         def ints(xs): return ' '.join([str(len(xs))] + [str(x) for x in xs])
         def chars(): return ''.join(chr(c) for c in F.list(F.int))
+        def cints(t): return ints([ord(c) for c in t])
+        if op == 'b32_encode':
+            h = chars(); d = F.list(F.int); return 'ok ' + cints(B.bech32_encode(h, d, B.Encoding(F.int())))
+        if op == 'b32_decode':
+            h, d, sp = B.bech32_decode(chars())
+            return 'ok none' if h is None and d is None and sp is None else f'ok {cints(h)} {ints(d)} {sp.value}'
+        if op == 'seg_decode':
+            h = chars(); v, d = B.decode(h, chars())
+            return 'ok none' if v is None and d is None else f'ok {v} {ints(d)}'
+        if op == 'seg_encode':
+            h = chars(); v = F.int(); r = B.encode(h, v, F.list(F.int))
+            return 'ok none' if r is None else 'ok ' + cints(r)
         if op == 'polymod': return f'ok {B.bech32_polymod(F.list(F.int))}'
         if op == 'hrp_expand': return 'ok ' + ints(B.bech32_hrp_expand(chars()))
         if op == 'create_checksum':
